@@ -526,6 +526,12 @@ class ScriptedPeer:
                 cut = max(1, min(len(resp) - 1, a[1]))
                 world.deliver_later(tr, a[2], index, resp[:cut])
                 world.deliver_later(tr, a[3], index, resp[cut:])
+        elif kind == "frag_then_full":  # first fragment, then the complete frame again (inverter re-sends the whole answer)
+            resp = r.respond(data)
+            if resp is not None:
+                cut = max(1, min(len(resp) - 1, a[1]))
+                world.deliver_later(tr, a[2], index, resp[:cut])
+                world.deliver_later(tr, a[3], index, resp)
         elif kind == "lone":
             resp = r.respond(data)
             if resp is not None:
